@@ -193,4 +193,54 @@ def samapCpyList (cfg : LibCfg) (vs : List JVal) : Option (List JVal × Nat) :=
     | _, _ => none
 end
 
+/-- Result of Loop: the entries of the map the path leads to are iterated over (in some order); nothing is
+(an absent key on the way: `nil` is returned without a call of the iterator); the unsupported-type error; panic. -/
+inductive JLoop
+  | iterate (keys : List Bytes) (vals : List JVal)
+  | nothing
+  | unsupported
+  | panic
+deriving Inhabited
+
+/-- Loop (stranymap.go:103-134): `indir` at every step; with the empty path `for k := range m`, otherwise the
+entry of the first key (absent: `return nil`) and the rest of the path. A nil pointer to a map: dereferenced
+(panic); repaired, it is a nil map — the entries its node carries (none, `JNilPtrsOK`) are iterated over. -/
+def samapLoop (cfg : LibCfg) (j : JVal) (p : List Bytes) : JLoop :=
+  match p with
+  | [] =>
+    (match j with
+     | .map _ nilAt _ ks vs => if nilAt != 0 && cfg.samapNilPtrPanics then .panic else .iterate ks vs
+     | _ => .unsupported)
+  | k :: rest =>
+    match j with
+    | .map _ nilAt _ ks vs =>
+      if nilAt != 0 && cfg.samapNilPtrPanics then .panic else
+      (match JVal.lookup ks vs k with
+       | some x => samapLoop cfg x rest
+       | none => .nothing)
+    | _ => .unsupported
+
+/-- The same by way of Get (what the driver computed before `samapLoop` was there; `samapLoop_eq_viaGet`,
+Proofs/C18.lean): the node the path leads to, then the step with the empty path. -/
+def samapLoopViaGet (cfg : LibCfg) (j : JVal) (p : List Bytes) : JLoop :=
+  match samapGet cfg j p with
+  | .node (.map _ 0 _ ks vs) => .iterate ks vs
+  | .node (.map _ _ _ ks vs) => if cfg.samapNilPtrPanics then .panic else .iterate ks vs
+  | .node _ => .unsupported
+  | .none => .nothing
+  | .unsupported => .unsupported
+  | .panic => .panic
+
+/-- Reset (stranymap.go:237-246, `indir2`) of the root `any` in holding form `f` around the map `m`: the map
+afterwards, as a plain map (`hold = 0`, `nilAt = 0`); `none`: panic. Through `*map[string]any` / `**map[string]any`
+every key is deleted; a map held by value (`ErrMustPointerType`), an untyped nil and a foreign type are left as
+they are. A nil `*map[string]any` / a `**map[string]any` whose target is nil: dereferenced (panic); repaired,
+Reset does nothing. -/
+def samapReset (cfg : LibCfg) (f : Form) (m : JVal) : Option JVal :=
+  match f with
+  | .ptr | .ptrptr => some (match m with | .map _ _ mn _ _ => .map 0 0 mn [] [] | x => x)
+  | .nilPtr | .ptrNilPtr =>
+    if cfg.samapNilPtrPanics then none else some (match m with | .map _ _ mn ks vs => .map 0 0 mn ks vs | x => x)
+  | _ => some (match m with | .map _ _ mn ks vs => .map 0 0 mn ks vs | x => x)
+
 end Inspector
